@@ -31,6 +31,8 @@ KNOWN = Ty("knowntasks", g="rt_self")
 SIGTAB = Ty("sigtable", g="rt_self")
 HINTTAB = Ty("hinttable", g="rt_self")
 GRAPHTAB = Ty("graphtable", g="rt_self")
+HANDLERTAB = Ty("handlertable", g="rt_self")  # [srcrun2] self.prepared_handlers: name -> function the caches were built for
+OBJ = Ty("funcobject", g="rt_obj")           # [srcrun2] a function object as an operand of `is` / `is not` (its identity)
 SIG = Ty("sig", g="rt_sig")
 HINTS = Ty("hints", g="rt_hints")
 GRAPH = Ty("graph", g="rt_graph")
@@ -71,6 +73,7 @@ ATTRS = {
     ("rself", "known_tasks"): ("(known_tasks %s)", KNOWN), ("rself", "validate_params"): ("(validate_params %s)", BOOL),
     ("rself", "task_signatures"): ("(task_signatures %s)", SIGTAB), ("rself", "task_hints"): ("(task_hints %s)", HINTTAB),
     ("rself", "dependency_graphs"): ("(dependency_graphs %s)", GRAPHTAB), ("rself", "broker"): ("(broker_of %s)", BROKER),
+    ("rself", "prepared_handlers"): ("(prepared_handlers %s)", HANDLERTAB),
     ("rself", "executor"): ("(executor_of %s)", EXECUTOR),
     ("rself", "propagate_exceptions"): ("(propagate_exceptions %s)", BOOL),
     ("rbroker", "custom_dependency_context"): ("(custom_dependency_context %s)", BCTX),
@@ -166,8 +169,22 @@ def c_context(fn, node, env):
     return "(Context %s %s)" % tuple(_pos(fn, node, env, [MSG, BROKER], "Context")), CONTEXT
 
 
+def c_getattr(fn, node, env):
+    """[srcrun2] getattr(f, "original_func", f) of a task function f (exactly this form: the same local twice): the
+    function a decorated task wraps, or the object itself.  The value is only an operand of `is` / `is not`."""
+    a = node.args
+    if node.keywords or len(a) != 3 or not (isinstance(a[0], ast.Name) and isinstance(a[2], ast.Name) and a[0].id == a[2].id) \
+            or not (isinstance(a[1], ast.Constant) and a[1].value == "original_func"):
+        _bad("getattr(...) other than getattr(<f>, \"original_func\", <f>)", node)
+    g, t = tr_expr(fn, a[0], env)
+    if t not in FUNCS:
+        _bad("getattr(%r, \"original_func\", ...)" % t, node)
+    return "(original_func_or_self %s)" % g, OBJ
+
+
 CALLS = {"asyncio.get_running_loop": c_get_running_loop, "asyncio.iscoroutinefunction": c_iscoroutinefunction,
-         "asyncio.wait_for": c_wait_for, "float": c_float, "round": c_round, "TaskiqResult": c_result, "Context": c_context}
+         "asyncio.wait_for": c_wait_for, "float": c_float, "round": c_round, "TaskiqResult": c_result, "Context": c_context,
+         "getattr": c_getattr}
 
 
 def _table_get(prim_name, result):
@@ -195,12 +212,40 @@ def m_run_in_executor(fn, node, g, t, env):
 
 
 METHODS = {("sigtable", "get"): _table_get("signatures_get", SIG), ("hinttable", "get"): _table_get("hints_get", HINTS),
-           ("graphtable", "get"): _table_get("graphs_get", GRAPH), ("labels", "get"): m_labels_get,
+           ("graphtable", "get"): _table_get("graphs_get", GRAPH), ("handlertable", "get"): _table_get("handlers_get", OBJ),
+           ("labels", "get"): m_labels_get,
            ("bctx_updated", "copy"): m_copy, ("loop", "run_in_executor"): m_run_in_executor}
 
 
 # ---------------------------------------------------------------------------------------- other pure expression forms
+def _identity_operand(fn, node, env):
+    """[srcrun2] an operand of `is` / `is not` between function objects -> (Gallina text, is it an Optional: text of type
+    option rt_obj rather than rt_obj); None if the operand is nothing of the kind (the comparison is then left to the
+    other tables)"""
+    if isinstance(node, ast.Constant):
+        return None
+    g, t = tr_expr(fn, node, env)
+    if t in FUNCS:                                           # the task function itself: its identity
+        return "(func_object %s)" % g, False
+    if t == OBJ:
+        return g, False
+    if t == Opt(OBJ):
+        return g, True
+    return None
+
+
 def expr(fn, node, env):
+    if isinstance(node, ast.Compare) and len(node.ops) == 1 and isinstance(node.ops[0], (ast.Is, ast.IsNot)) \
+            and not (isinstance(node.comparators[0], ast.Constant) and node.comparators[0].value is None):
+        a, b = _identity_operand(fn, node.left, env), _identity_operand(fn, node.comparators[0], env)    # [srcrun2]
+        if a is not None and b is not None:
+            if a[1] and b[1]:
+                _bad("identity test between two Optional function objects", node)
+            if b[1]:                                         # identity is symmetric: the Optional operand goes first
+                a, b = b, a
+            g = "(object_is %s %s)" % (a[0] if a[1] else "(Some %s)" % a[0], b[0])
+            return (g if isinstance(node.ops[0], ast.Is) else "(negb %s)" % g), BOOL
+        return None
     if isinstance(node, ast.Dict):
         if not node.keys:                                    # {}
             return "empty_kwargs", KW0
@@ -339,8 +384,17 @@ def mutates(s):
     return set()
 
 
+def stmt_blk(fn, s, rest, env, k, live, live_rest):
+    """[srcrun2] `continue`: the backend has learnt it since this unit was built (for_c / continue_ of PyPreludeLoop.v); the
+    two preludes of this unit have no such loop, so the statement stays outside this unit's subset (fail-closed: unit
+    skipped) instead of producing text that does not compile."""
+    if isinstance(s, ast.Continue):
+        _bad("continue (no loop with continue in this unit's preludes)", s)
+    return None
+
+
 EXT = Ext(calls=CALLS, methods=METHODS, attrs=ATTRS, compare=COMPARE, truthy=TRUTHY, expr=expr, fact_test=fact_test,
-          prim=prim, mutates=mutates, exc_type=EXC, multi_except=True,
+          prim=prim, mutates=mutates, exc_type=EXC, multi_except=True, stmt_blk=stmt_blk,
           except_classes={"Exception": "is_exception", "BaseException": "is_BaseException",
                           "NoResultError": "is_NoResultError", "asyncio.CancelledError": "is_CancelledError"})
 
